@@ -19,3 +19,18 @@ func TestDbg(t *testing.T) {
 		f.WriteTo(os.Stdout)
 	}
 }
+
+func TestLostErrors(t *testing.T) {
+	if os.Getenv("LOSTERR") == "" {
+		t.Skip()
+	}
+	p, err := Load("/repo", "", nil)
+	if err != nil {
+		t.Fatal(err)
+	}
+	for _, fn := range p.Fns {
+		for _, l := range p.lostErrors(fn) {
+			t.Logf("%s %s %s %s", p.Name(fn), l.kind, l.call, p.Pos(l.at))
+		}
+	}
+}
